@@ -94,7 +94,12 @@ macro_rules! shift_types {
         $(
             if let Ok(a) = <$t>::try_from(amt) {
                 let ex = ex_sc($ty, &[a.sc()], "rc");
-                match ($k + n) % 4 {
+                match ($k + n) % 6 {
+                    4 => { $r.op($op, concat!("val_ref", stringify!($t)), &[$idx(0)], &[$idx(2)], &ex, |g| { g.$bank[2] = g.$bank[0].clone() $sh &a; Ret::none() }); }
+                    5 => {
+                        $r.op("clone", "clone", &[$idx(0)], &[$idx(2)], &format!("\"ty\":\"{}\"", $ty), |g| { g.$bank[2] = g.$bank[0].clone(); Ret::none() });
+                        $r.op($op, concat!("assign_ref", stringify!($t)), &[$idx(2)], &[$idx(2)], &ex, |g| { g.$bank[2] $sha &a; Ret::none() });
+                    }
                     0 => { $r.op($op, concat!("val_", stringify!($t)), &[$idx(0)], &[$idx(2)], &ex, |g| { g.$bank[2] = g.$bank[0].clone() $sh a; Ret::none() }); }
                     1 => { $r.op($op, concat!("ref_", stringify!($t)), &[$idx(0)], &[$idx(2)], &ex, |g| { g.$bank[2] = &g.$bank[0] $sh a; Ret::none() }); }
                     2 => { $r.op($op, concat!("ref_ref", stringify!($t)), &[$idx(0)], &[$idx(2)], &ex, |g| { g.$bank[2] = &g.$bank[0] $sh &a; Ret::none() }); }
@@ -124,7 +129,7 @@ fn shifts(r: &mut Rec, rng: &mut Rng, bits_u: u64, bits_i: u64) {
         if !r.thorough && (j as u64 + pick) % 3 != 0 && amt >= 0 {
             continue;
         }
-        let k = rng.below(4);
+        let k = rng.below(6);
         // left shifts only when the result stays small
         if amt <= 300 {
             shift_types!(r, u, "U", u, "shl", <<, <<=, amt, k, [u8, u16, u32, u64, u128, usize, i8, i16, i32, i64, i128, isize]);
